@@ -151,7 +151,8 @@ def extract():
     arms = dict((norm(p), norm(b)) for p, b in match_arms(g[s:e], mg[s:e], s2, e2))
     want = {
         "Literal::Null": "sql_ast::Expr::Value(Value::Null.into())",
-        "Literal::String(s) | Literal::RawString(s)": "{ sql_ast::Expr::Value(Value::SingleQuotedString(s).into()) }",
+        # since fix e3af91e: every quote doubled before sqlparser's Display (Model/Escape.v emit_literal_string)
+        "Literal::String(s) | Literal::RawString(s)": "{ sql_ast::Expr::Value(Value::SingleQuotedString(s.replace('\\'', \"''\")).into()) }",
         "Literal::Boolean(b)": "sql_ast::Expr::Value(Value::Boolean(b).into())",
         "Literal::Float(f)": 'sql_ast::Expr::Value(Value::Number(format!("{f:?}"), false).into())',
         "Literal::Integer(i)": 'sql_ast::Expr::Value(Value::Number(format!("{i}"), false).into())',
